@@ -106,12 +106,14 @@ fn main() {
         let body = body.strip_prefix(&format!("{suite} ")).unwrap_or(&body).to_string();
         let c = match suite.as_str() {
             "sm" => suites::slotmap::replay(&body),
+            "slot" => suites::slot::replay(&body),
             _ => panic!("unknown suite"),
         };
         ctx.emit(c);
     } else {
         match suite.as_str() {
             "sm" => suites::slotmap::run(&mut ctx),
+            "slot" => suites::slot::run(&mut ctx),
             _ => panic!("unknown suite"),
         }
     }
